@@ -272,8 +272,13 @@ func Worker(t *testing.T) {
 			}
 			o2 := runSc(sc, t, env.Prop, seed, o.Cfg, st, o.Tape, false)
 			if o2.Hash != o.Hash && os.Getenv("VERIF_DEBUG") != "" {
+				os.WriteFile("/tmp/selftest-0.ytrace", []byte(strings.Join(YTrace, "\n")), 0o644)
+				YTrace = nil
 				a := runSc(sc, t, env.Prop, seed, cfg, nil, nil, true)
+				os.WriteFile("/tmp/selftest-a.ytrace", []byte(strings.Join(YTrace, "\n")), 0o644)
+				YTrace = nil
 				b := runSc(sc, t, env.Prop, seed, o.Cfg, st, o.Tape, true)
+				os.WriteFile("/tmp/selftest-b.ytrace", []byte(strings.Join(YTrace, "\n")), 0o644)
 				os.WriteFile("/tmp/selftest-a.log", []byte(strings.Join(a.Log, "\n")), 0o644)
 				os.WriteFile("/tmp/selftest-b.log", []byte(strings.Join(b.Log, "\n")), 0o644)
 				fmt.Fprintf(os.Stderr, "tape lens %d %d steps %d %d\n", len(a.Tape), len(b.Tape), len(a.Steps), len(b.Steps))
